@@ -166,6 +166,22 @@ def spec_cosmutex(tier):
         scen_keys=["opts", "workers", "p1", "p2", "p3", "p4"], trace_timeout=1500)
 
 
+def spec_spin(tier):
+    """the internal lock of the coroutine SharedMutex (include/yaclib/util/detail/spinlock.hpp)"""
+    grid = [{"rounds": r} for r in ("11", "21", "22", "111", "211")]
+    if tier != "quick":
+        grid += [{"rounds": r} for r in ("221", "222", "1111", "311")]
+    rand = [{"rounds": "222"}, {"rounds": "1111"}, {"rounds": "311"}]
+    mc = [("Spinlock_MC.cfg", 4, 600, "Spinlock: 2-3 threads x 1-2 rounds, all interleavings, with happens-before bookkeeping"),
+          ("Spinlock_Live.cfg", 2, 600, "Spinlock: <>Quiescent under weak fairness of every thread (every lock() is granted)")]
+    return ConcSpec(
+        name="Spinlock", scenario="sl", grid=grid, inv_props={"NoRace": ("C15", "C04")}, primary="C15", mc_cfgs=mc, paths_cfg=None,
+        dfs_max=4000 if tier == "quick" else 40000, preempt=3 if tier == "quick" else 4,
+        rand_execs=200 if tier == "quick" else 3000, rand_grid=rand,
+        tail_boost=[{"rounds": "11"}, {"rounds": "21"}], tail_boost_execs=500, tail_boost_preempt=2,
+        scen_keys=["rounds"], trace_timeout=900)
+
+
 def spec_await(tier):
     grid = []
     for form in ("fut", "await", "sticky", "on"):
@@ -341,6 +357,8 @@ def c14(rep, tier, seed):
 def c15(rep, tier, seed):
     """coroutine SharedMutex: writers exclude all, readers share, nobody is forgotten (CoSharedMutex.tla)"""
     run_conc(rep, spec_cosmutex(tier), tier, seed, {"C15"})
+    # the internal spinlock every slow-path decision is taken under
+    run_conc(rep, spec_spin(tier), tier, seed, {"C15"})
     rep.assumptions += ["coroutines run on the harness pool (1-3 workers); a worker that spins on the internal spinlock is not "
                         "scheduled again until another worker has modified something (fair scheduling of spin loops)"]
 
@@ -420,7 +438,7 @@ def all_conc_specs(tier):
     return [spec_unique(tier), spec_shared(tier), spec_wait(tier), spec_when(tier, ALL_STRATS + ANY_STRATS, "C09"),
             spec_strand(tier), spec_pool(tier),
             _lite(spec_wg(tier), tier), _lite(spec_comutex(tier), tier), _lite(spec_cosmutex(tier), tier),
-            _lite(spec_await(tier), tier)]
+            _lite(spec_await(tier), tier), _lite(spec_spin(tier), tier)]
 
 
 @check("C03")
